@@ -477,8 +477,15 @@ with experiment(Path(args["ws"]), "tok", port=-1) as xp:
     xp.setenv("PYTHONPATH", os.pathsep.join([args["pkg"]] + ([os.environ["PYTHONPATH"]] if os.environ.get("PYTHONPATH") else [])))
     first = xp.token("slots", args["a"])       # the token is defined ...
     token = xp.token("slots", args["b"])       # ... and asked again with another total
+    # odd-numbered jobs are placed under the token by a submit listener of the launcher ("this allows the launcher to add
+    # token dependencies", launchers/__init__.py), the others by the user
+    def attach(job):
+        if job.config.x % 2 == 1:
+            job.dependencies.add(token.dependency(1))
+    xp.workspace.launcher.addListener(attach)
     for i in range(args["jobs"]):
-        token(1, Hold(x=i, count=1, log=Path(args["log"]), dur=args["dur"])).submit()
+        h = Hold(x=i, count=1, log=Path(args["log"]), dur=args["dur"])
+        (h if i % 2 == 1 else token(1, h)).submit()
     xp.wait()
 info = Path(os.environ["XPM_WORKDIR"]) / "tokens" / "slots.counter" / "token.info"
 print(json.dumps({"same_object": first is token, "token_total": token.total, "token_info": int(info.read_text()),
